@@ -32,6 +32,15 @@ def followup_universe(ex, st, name=''):
     u2 = X.Universe(uni.mod, uni.nodes, uni.edges, uni.mode, hist, present, inputs=dict(uni.inputs), name=name or uni.name + '+1')
     u2.initial_pc = dict(st.pc)
     u2.prev = (ex, st)
+    if getattr(uni, 'sem', None) is not None:
+        # deterministic job behaviours (H-IND vocabulary): "nothing else changed" means the same behaviours and the same
+        # Always outputs in the follow-up evaluation
+        from . import ind
+        u2.sem = uni.sem
+        u2.evalno = uni.evalno
+        u2.file0 = dict(getattr(uni, 'file0', {}))
+        u2.axioms = list(getattr(uni, 'axioms', None) or [])
+        ind.install_behaviour(u2)
     return u2
 
 
@@ -134,8 +143,8 @@ def run_reeval_instance(mod, nodes, edges, mode, deadline=None, max_first=2000, 
                 pc = dict(v.state.pc)
                 model = v.model or ex2.z.model_for(frozenset(pc.items()))
                 c = cex.Concretizer(ex2.z, uni, model)
-                sc1 = c.scenario(uni, st.path(), 'eval1')
-                sc2 = c.scenario(u2, v.state.path(), 'eval2')
+                sc1 = c.scenario(uni, st.path(), 'eval1', outs=st.path_outs())
+                sc2 = c.scenario(u2, v.state.path(), 'eval2', outs=v.state.path_outs())
                 # the second evaluation starts from what the first returned: filled in at replay time
                 viols.append({'prop': v.prop, 'what': v.what, 'scenario': sc1.to_json(), 'scenario2': sc2.to_json(),
                               'depth': st.depth + v.state.depth, 'chain': True,
@@ -148,8 +157,14 @@ def run_reeval_instance(mod, nodes, edges, mode, deadline=None, max_first=2000, 
 
 def run_resume_instance(mod, nodes, edges, mode, deadline=None, max_first=20000, built=False):
     """C09(b): interrupted evaluation E1 (any failure subset / abort point), failure-free resume E2, compared with
-    every uninterrupted evaluation U from the same start that the same input admits.  returns (stats, violations)"""
-    uni = H.make_universe(mod, nodes, edges, mode, built=built)
+    every uninterrupted evaluation U from the same start that the same input admits.  returns (stats, violations)
+
+    Job behaviours are deterministic functions of the consumed contents and the starting history satisfies the invariant
+    Sound (see ind.py): "nothing else changed" includes that a job re-executed on unchanged inputs produces what it produced
+    before -- without this a re-executed Ephemeral could report a new value in the resumed evaluation only, which is the
+    situation C16 rules out, not a resume defect."""
+    from . import ind
+    uni = ind.hind_universe(mod, nodes, edges, mode, built=built)
     ex1 = X.Explorer(uni, [])
     ex1.run(deadline=deadline)
     z = ex1.z
@@ -176,11 +191,11 @@ def run_resume_instance(mod, nodes, edges, mode, deadline=None, max_first=20000,
             if model is None:
                 model = z.model_for(pcset)
             c = cex.Concretizer(z, uni, model)
-            v = {'prop': 'C09', 'what': what, 'scenario': c.scenario(uni, st1.path(), 'interrupted').to_json(),
-                 'scenario2': c.scenario(st2_universe(st2), st2.path(), 'resume').to_json(), 'chain': True,
+            v = {'prop': 'C09', 'what': what, 'scenario': c.scenario(uni, st1.path(), 'interrupted', outs=st1.path_outs()).to_json(),
+                 'scenario2': c.scenario(st2_universe(st2), st2.path(), 'resume', outs=st2.path_outs()).to_json(), 'chain': True,
                  'depth': st1.depth + st2.depth, 'pc': [[repr(a), b] for a, b in sorted(pcset, key=repr)]}
             if stu is not None:
-                v['scenario3'] = c.scenario(uni, stu.path(), 'uninterrupted').to_json()
+                v['scenario3'] = c.scenario(uni, stu.path(), 'uninterrupted', outs=stu.path_outs()).to_json()
             viols.append(v)
         except rt.Unsupported:
             pass
